@@ -481,6 +481,23 @@ nd::harnesses! {
         assert!(live() == 0 && drops() == made(), "every item destroyed exactly once");
     }
 
+    /// Zero-sized items are items: a collector holds as many as were offered (Vec and Extend collectors).
+    #[kani::unwind(6)]
+    fn c15_collect_zero_sized_items() {
+        let n = nd::range(0, 3);
+        let via_extend: bool = nd::any();
+        let items = [(); 3];
+        let mut v: Vec<()> = Vec::new();
+        let ret = if via_extend {
+            let cb = v.from_extend();
+            items[..n].iter().copied().feed_into(cb)
+        } else {
+            let cb: OpaqueCallback<()> = (&mut v).into();
+            items[..n].iter().copied().feed_into(cb)
+        };
+        assert!(ret == n && v.len() == n, "the collection holds exactly the offered items");
+    }
+
     /// A source that is not fused: the wrapper answers every poll with exactly what the source answers to that poll
     /// (an item after a None is not lost), and polls the source once per poll.
     #[kani::unwind(8)]
